@@ -150,10 +150,10 @@ func (c *VirtualTable) Disconnect() error {
 	if err := toSqlite(c.common.Disconnect()); err != nil {
 		return err
 	}
-	if c.module.sc.ctxCancel != nil {
-		c.module.sc.ctxCancel()
-		c.module.sc.ctxCancel = nil
-	}
+	// the context belongs to the connection, not to this table: release it, and
+	// rebuild it from the connection's deadline and write time for the tables
+	// (and statements) that remain
+	c.module.sc.ResetContext()
 
 	return nil
 }
